@@ -37,6 +37,15 @@ CHECKS = {
     'C17': (MC, 'stateless exhaustive schedule exploration with reference liveness; all label permutations for set order',
             'remove_results / get_result / retained-set at every rest point and at close checked against reference liveness (direct executing dependents) in every schedule, for all label permutations (n<=3 quick, n<=4 thorough) x fault sets; same oracle on the real SerialRunner results_map through a pass-through spy.',
             'Trusted: SchedRunner runs bodies at completion time so premature release also surfaces as a failed read.', 'E1+E2', '5/C17'),
+    'C07': (EX, 'small-scope exhaustive enumeration of parameter trees x task types; determinism + injectivity oracle',
+            'Every parameter tree up to the tier bound over a collision-prone alphabet (edge floats/strings, 4 enum classes incl. same-named members and same-named classes in two modules, nested tasks) x 7 outer types: key equal after rebuild, list/tuple and dict/frozendict spelling, pickle, serialize->deserialize, and in fresh interpreters under other hash seeds; no two tasks with different typed canonical forms share a key; LocalStorage accepts every key.',
+            'Trusted: the independent canonical form in paramtree.py; pairs the statement does not decide (dict insertion order, 0.0/-0.0, equal-comparing 1/True) are not asserted.', 'E5', '5/C07'),
+    'C09': (EX, 'small-scope exhaustive enumeration of parameter trees cached through real serial runs; cached_tasks compared with the set actually cached',
+            'Every parameter tree to depth 2 x outer types (prefix-named, same-named in two modules, JSON cache format, protocol-2 pickle, post_init, uncached) cached in storages shared by all of them plus a foreign-format entry; every single-type and several multi-type cached_tasks queries must return exactly the cached tasks of that type once, equal, same key, stored result_meta; re-running them loads without executing. In-memory storage plus LocalStorage and fsspec-local slices.',
+            'Trusted: ground truth of what was cached comes from the run() bodies recording their own cache_key.', 'E5', '5/C09'),
+    'C15': (EX, 'small-scope exhaustive enumeration of supported and unsupported parameter trees x pickle protocols',
+            'Every supported tree: normalisation at every depth, frozen, hashable, spelling-independent equality/hash, cross-type inequality, dependency set equal to an independent finder, serialisable; for every pickle protocol the copy is equal, same hash/key/dependencies, carries post_init-derived state and no results/context (the original carried all three). Every supported tree of depth <=2 with one position replaced by an unsupported value or non-string dict key must raise TaskError.',
+            'Trusted: independent dependency finder and canonical form.', 'E5', '5/C15'),
 }
 
 PENDING = {
